@@ -27,15 +27,33 @@ theorem strictAsc_bool (l : List Bytes) (h : StrictAsc l) : strictAsc l = true :
       simp only [strictAsc, Bool.and_eq_true, beq_iff_eq]
       exact ⟨h.1, ih h.2⟩
 
+/-- tag keys strictly ascending (`models.Tags`) -/
+def TagsAsc (tags : Tags) : Prop := tags.Pairwise fun a b => cmpBytes a.1 b.1 = .lt
+
+theorem tagsAsc_of_sorted (tags : Tags) (h : tagsSorted tags = true) : TagsAsc tags := by
+  induction tags with
+  | nil => exact List.Pairwise.nil
+  | cons a rest ih =>
+    cases rest with
+    | nil => exact List.pairwise_singleton _ _
+    | cons b rest' =>
+      simp only [tagsSorted, Bool.and_eq_true, beq_iff_eq] at h
+      have hrest := ih h.2
+      refine List.pairwise_cons.2 ⟨?_, hrest⟩
+      intro x hx
+      rcases List.mem_cons.1 hx with rfl | hx
+      · exact h.1
+      · exact cmpBytes_trans h.1 ((List.pairwise_cons.1 hrest).1 x hx)
+
 /-- tags with strictly ascending keys have one value per key -/
-theorem tagGet_iff_mem (tags : Tags) (hs : tagsSortedP tags) (k v : Bytes) :
+theorem tagGet_iff_mem (tags : Tags) (hs : TagsAsc tags) (k v : Bytes) :
     (k, v) ∈ tags ↔ tagGet tags k = some v := by
   induction tags with
   | nil => simp [tagGet]
   | cons t ts ih =>
     obtain ⟨tk, tv⟩ := t
-    have hts : tagsSortedP ts := hs.tail
-    have hlt : ∀ x ∈ ts, cmpBytes tk x.1 = .lt := hs.head
+    have hts : TagsAsc ts := (List.pairwise_cons.1 hs).2
+    have hlt : ∀ x ∈ ts, cmpBytes tk x.1 = .lt := (List.pairwise_cons.1 hs).1
     simp only [tagGet, List.find?_cons, List.mem_cons, Prod.mk.injEq]
     by_cases hk : tk = k
     · subst hk
@@ -45,7 +63,7 @@ theorem tagGet_iff_mem (tags : Tags) (hs : tagsSortedP tags) (k v : Bytes) :
         · rfl
         · have := hlt (tk, v) hmem
           rw [cmpBytes_refl] at this; cases this
-      · intro h; exact Or.inl ⟨rfl, h.symm⟩
+      · intro h; exact Or.inl ⟨trivial, h.symm⟩
     · have hk' : decide (tk = k) = false := by simp [hk]
       simp only [hk']
       have := ih hts
@@ -56,5 +74,303 @@ theorem tagGet_iff_mem (tags : Tags) (hs : tagsSortedP tags) (k v : Bytes) :
         · exact absurd rfl hk
         · exact hmem
       · intro h; exact Or.inr h
+
+/-- what the theorem needs of a state: exact index, functional tags, distinct shard ids -/
+structure Inv42 (st : State) : Prop where
+  idx : IndexExact st
+  tags : ∀ sh ∈ st, ∀ s ∈ sh.series, TagsAsc s.tags
+
+theorem tagsFn_of_inv {st : State} (h : Inv42 st) : TagsFn st :=
+  fun sh hsh s hs k v => tagGet_iff_mem s.tags (h.tags sh hsh s hs) k v
+
+theorem shard_write_spec (sh : Shard) (name : Bytes) (tags : Tags) (pts : List (Int × Int)) :
+    (∀ n2 t2, (∃ s ∈ (sh.write name tags pts).series, s.name = n2 ∧ s.tags = t2) ↔
+       ((∃ s ∈ sh.series, s.name = n2 ∧ s.tags = t2) ∨ (n2 = name ∧ t2 = tags))) ∧
+    (∀ m k v, (m, k, v) ∈ (sh.write name tags pts).tagvals ↔
+       ((m, k, v) ∈ sh.tagvals ∨ (¬ (∃ s ∈ sh.series, s.name = name ∧ s.tags = tags) ∧ m = name ∧ (k, v) ∈ tags))) := by
+  unfold Shard.write
+  by_cases hany : (sh.series.any fun s => decide (s.name = name ∧ s.tags = tags)) = true
+  · rw [if_pos hany]
+    have hex : ∃ s ∈ sh.series, s.name = name ∧ s.tags = tags := by
+      simpa [List.any_eq_true] using hany
+    constructor
+    · intro n2 t2
+      simp only [List.mem_map]
+      constructor
+      · rintro ⟨s', ⟨s, hs, rfl⟩, hn, ht⟩
+        left
+        refine ⟨s, hs, ?_, ?_⟩
+        · split at hn <;> exact hn
+        · split at ht <;> exact ht
+      · rintro (⟨s, hs, hn, ht⟩ | ⟨rfl, rfl⟩)
+        · refine ⟨_, ⟨s, hs, rfl⟩, ?_, ?_⟩
+          · split <;> exact hn
+          · split <;> exact ht
+        · obtain ⟨s, hs, hn, ht⟩ := hex
+          refine ⟨_, ⟨s, hs, rfl⟩, ?_, ?_⟩
+          · split <;> exact hn
+          · split <;> exact ht
+    · intro m k v
+      simp only
+      constructor
+      · intro h; exact Or.inl h
+      · rintro (h | ⟨hno, _⟩)
+        · exact h
+        · exact absurd hex hno
+  · rw [if_neg hany]
+    have hno : ¬ ∃ s ∈ sh.series, s.name = name ∧ s.tags = tags := by
+      simpa [List.any_eq_true] using hany
+    constructor
+    · intro n2 t2
+      simp only [List.mem_append, List.mem_singleton]
+      constructor
+      · rintro ⟨s, (hs | rfl), hn, ht⟩
+        · exact Or.inl ⟨s, hs, hn, ht⟩
+        · exact Or.inr ⟨hn.symm, ht.symm⟩
+      · rintro (⟨s, hs, hn, ht⟩ | ⟨rfl, rfl⟩)
+        · exact ⟨s, Or.inl hs, hn, ht⟩
+        · exact ⟨_, Or.inr rfl, rfl, rfl⟩
+    · intro m k v
+      simp only [List.mem_append, List.mem_filter, List.mem_map, Bool.not_eq_true',
+        List.contains_eq_mem, decide_eq_false_iff_not]
+      constructor
+      · rintro (h | ⟨⟨t, ht, heq⟩, _⟩)
+        · exact Or.inl h
+        · simp only [Prod.mk.injEq] at heq
+          obtain ⟨rfl, rfl, rfl⟩ := heq
+          exact Or.inr ⟨hno, rfl, by simpa using ht⟩
+      · rintro (h | ⟨_, rfl, hkv⟩)
+        · exact Or.inl h
+        · by_cases hin : (m, k, v) ∈ sh.tagvals
+          · exact Or.inl hin
+          · exact Or.inr ⟨⟨(k, v), hkv, rfl⟩, hin⟩
+
+theorem inv42_write (st : State) (h : Inv42 st) (sh : Nat) (name : Bytes) (tags : Tags) (pts : List (Int × Int))
+    (hta : TagsAsc tags) : Inv42 (write st sh name tags pts) := by
+  constructor
+  · intro sh' hsh' m k v
+    simp only [write, List.mem_map] at hsh'
+    obtain ⟨sh0, hsh0, rfl⟩ := hsh'
+    split
+    · obtain ⟨hser, htv⟩ := shard_write_spec sh0 name tags pts
+      rw [htv m k v, h.idx sh0 hsh0 m k v]
+      constructor
+      · rintro (⟨s, hs, hn, hkv⟩ | ⟨_, rfl, hkv⟩)
+        · obtain ⟨s', hs', hn', ht'⟩ := (hser s.name s.tags).2 (Or.inl ⟨s, hs, rfl, rfl⟩)
+          exact ⟨s', hs', hn'.trans hn, by rw [ht']; exact hkv⟩
+        · obtain ⟨s', hs', hn', ht'⟩ := (hser m tags).2 (Or.inr ⟨rfl, rfl⟩)
+          exact ⟨s', hs', hn', by rw [ht']; exact hkv⟩
+      · rintro ⟨s', hs', hn', hkv⟩
+        rcases (hser s'.name s'.tags).1 ⟨s', hs', rfl, rfl⟩ with ⟨s, hs, hn, ht⟩ | ⟨hn, ht⟩
+        · exact Or.inl ⟨s, hs, hn.trans hn', by rw [ht]; exact hkv⟩
+        · by_cases hex : ∃ s ∈ sh0.series, s.name = name ∧ s.tags = tags
+          · obtain ⟨s, hs, hn2, ht2⟩ := hex
+            exact Or.inl ⟨s, hs, by rw [hn2, ← hn, hn'], by rw [ht2, ← ht]; exact hkv⟩
+          · exact Or.inr ⟨hex, by rw [← hn', hn], by rw [← ht]; exact hkv⟩
+    · exact h.idx sh0 hsh0 m k v
+  · intro sh' hsh' s' hs'
+    simp only [write, List.mem_map] at hsh'
+    obtain ⟨sh0, hsh0, rfl⟩ := hsh'
+    split at hs'
+    · obtain ⟨hser, _⟩ := shard_write_spec sh0 name tags pts
+      rcases (hser s'.name s'.tags).1 ⟨s', hs', rfl, rfl⟩ with ⟨s, hs, _, ht⟩ | ⟨_, ht⟩
+      · rw [← ht]; exact h.tags sh0 hsh0 s hs
+      · rw [ht]; exact hta
+    · exact h.tags sh0 hsh0 s' hs'
+
+theorem rel42_write (st : State) (h : Hist) (hr : Rel42 st h)
+    (sh : Nat) (name : Bytes) (tags : Tags) (pts : List (Int × Int)) (hex : st.any (·.id = sh) = true) :
+    Rel42 (write st sh name tags pts) (h.write sh name tags (pts.map (·.1))) := by
+  intro i n2 t2
+  -- the history side
+  have hH : (∃ e ∈ (h.write sh name tags (pts.map (·.1))).live, e.shard = i ∧ e.name = n2 ∧ e.tags = t2) ↔
+      ((∃ e ∈ h.live, e.shard = i ∧ e.name = n2 ∧ e.tags = t2) ∨ (i = sh ∧ n2 = name ∧ t2 = tags)) := by
+    unfold Hist.write
+    by_cases hany : (h.live.any fun e => decide (e.shard = sh ∧ e.name = name ∧ e.tags = tags)) = true
+    · rw [if_pos hany]
+      have hexe : ∃ e ∈ h.live, e.shard = sh ∧ e.name = name ∧ e.tags = tags := by
+        simpa [List.any_eq_true] using hany
+      simp only [List.mem_map]
+      constructor
+      · rintro ⟨e', ⟨e, he, rfl⟩, h1, h2, h3⟩
+        left
+        refine ⟨e, he, ?_, ?_, ?_⟩
+        · split at h1 <;> exact h1
+        · split at h2 <;> exact h2
+        · split at h3 <;> exact h3
+      · rintro (⟨e, he, h1, h2, h3⟩ | ⟨rfl, rfl, rfl⟩)
+        · refine ⟨_, ⟨e, he, rfl⟩, ?_, ?_, ?_⟩
+          · split <;> exact h1
+          · split <;> exact h2
+          · split <;> exact h3
+        · obtain ⟨e, he, h1, h2, h3⟩ := hexe
+          refine ⟨_, ⟨e, he, rfl⟩, ?_, ?_, ?_⟩
+          · split <;> exact h1
+          · split <;> exact h2
+          · split <;> exact h3
+    · rw [if_neg hany]
+      simp only [List.mem_append, List.mem_singleton]
+      constructor
+      · rintro ⟨e, (he | rfl), h1, h2, h3⟩
+        · exact Or.inl ⟨e, he, h1, h2, h3⟩
+        · exact Or.inr ⟨h1.symm, h2.symm, h3.symm⟩
+      · rintro (⟨e, he, h1, h2, h3⟩ | ⟨rfl, rfl, rfl⟩)
+        · exact ⟨e, Or.inl he, h1, h2, h3⟩
+        · exact ⟨_, Or.inr rfl, rfl, rfl, rfl⟩
+  -- the model side
+  have hM : (∃ x ∈ write st sh name tags pts, x.id = i ∧ ∃ s ∈ x.series, s.name = n2 ∧ s.tags = t2) ↔
+      ((∃ x ∈ st, x.id = i ∧ ∃ s ∈ x.series, s.name = n2 ∧ s.tags = t2) ∨ (i = sh ∧ n2 = name ∧ t2 = tags)) := by
+    simp only [write, List.mem_map]
+    constructor
+    · rintro ⟨x, ⟨sh0, hsh0, rfl⟩, hid, hs⟩
+      by_cases hsid : sh0.id = sh
+      · simp only [hsid, if_true] at hid hs
+        rw [shard_write_id] at hid
+        rcases ((shard_write_spec sh0 name tags pts).1 n2 t2).1 hs with hold | hnew
+        · exact Or.inl ⟨sh0, hsh0, hid, hold⟩
+        · exact Or.inr ⟨by rw [← hid, hsid], hnew.1, hnew.2⟩
+      · simp only [hsid, if_false] at hid hs
+        exact Or.inl ⟨sh0, hsh0, hid, hs⟩
+    · rintro (⟨sh0, hsh0, hid, hs⟩ | ⟨rfl, rfl, rfl⟩)
+      · refine ⟨_, ⟨sh0, hsh0, rfl⟩, ?_, ?_⟩
+        · split
+          · rw [shard_write_id]; exact hid
+          · exact hid
+        · split
+          · exact ((shard_write_spec sh0 name tags pts).1 n2 t2).2 (Or.inl hs)
+          · exact hs
+      · obtain ⟨sh0, hsh0, hsid⟩ : ∃ sh0 ∈ st, sh0.id = i := by
+          simpa [List.any_eq_true] using hex
+        refine ⟨_, ⟨sh0, hsh0, rfl⟩, ?_, ?_⟩
+        · simp only [hsid, if_true]; rw [shard_write_id]; exact hsid
+        · simp only [hsid, if_true]
+          exact ((shard_write_spec sh0 n2 t2 pts).1 n2 t2).2 (Or.inr ⟨rfl, rfl⟩)
+  rw [hH, hM, hr i n2 t2]
+
+/-! ### the judged MeasurementNames answers -/
+
+theorem judge_mn42 (st : State) (h : Hist) (hr : Rel42 st h) (hinv : Inv42 st) (a : Auth) (c : Option Cond)
+    (hc : ∀ c', c = some c' → condOK c' = true) :
+    judgeQuery h.live (.mn a c) (.names (measurementNames a st c)) = .ok := by
+  have hsorted : sortedAns (.names (measurementNames a st c)) = true :=
+    strictAsc_bool _ (strictAsc_measurementNames a st c)
+  -- membership in the model's answer
+  have hmem : ∀ m, m ∈ measurementNames a st c ↔
+      ∃ sh ∈ st, ∃ s ∈ sh.series, s.name = m ∧ a.allows s.name s.tags = true ∧ optHolds s.name s.tags c = true := by
+    intro m
+    cases c with
+    | none =>
+      rw [mem_measurementNames_none]
+      simp [LiveAuth, optHolds]
+    | some c' =>
+      have := mem_namesByExpr a st hinv.idx (tagsFn_of_inv hinv) c' (hc c' rfl) m
+      simp only [measurementNames, optHolds]
+      rw [this]; rfl
+  have hexp : ∀ m, (m, ([] : Bytes), ([] : Bytes)) ∈ expected h.live (.mn a c) ↔
+      ∃ e ∈ h.live, e.name = m ∧ a.allows e.name e.tags = true ∧ optHolds e.name e.tags c = true := by
+    intro m
+    simp only [expected, visible, List.mem_map, List.mem_filter, Bool.and_eq_true, Bool.true_and, Prod.mk.injEq,
+      and_true]
+    constructor
+    · rintro ⟨e, ⟨⟨he, hal⟩, hh⟩, hn⟩; exact ⟨e, he, hn, hal, hh⟩
+    · rintro ⟨e, he, hn, hal, hh⟩; exact ⟨e, ⟨⟨he, hal⟩, hh⟩, hn⟩
+  have hsub1 : subset (returned (.names (measurementNames a st c))) (expected h.live (.mn a c)) = true := by
+    simp only [subset, returned, List.all_eq_true, List.mem_map, List.contains_eq_mem, decide_eq_true_eq]
+    rintro x ⟨m, hm, rfl⟩
+    obtain ⟨sh, hsh, s, hs, hn, hal, hh⟩ := (hmem m).1 hm
+    obtain ⟨e, he, _, hen, het⟩ := (hr sh.id s.name s.tags).2 ⟨sh, hsh, rfl, s, hs, rfl, rfl⟩
+    exact (hexp m).2 ⟨e, he, hen.trans hn, by rw [hen, het]; exact hal, by rw [hen, het]; exact hh⟩
+  have hsub2 : subset (expected h.live (.mn a c)) (returned (.names (measurementNames a st c))) = true := by
+    simp only [subset, List.all_eq_true, List.contains_eq_mem, decide_eq_true_eq]
+    intro x hx
+    have hx' := hx
+    simp only [expected, List.mem_map] at hx'
+    obtain ⟨e, _, rfl⟩ := hx'
+    obtain ⟨e', he', hn', hal, hh⟩ := (hexp e.name).1 hx
+    obtain ⟨sh, hsh, _, s, hs, hsn, hst⟩ := (hr e'.shard e'.name e'.tags).1 ⟨e', he', rfl, rfl, rfl⟩
+    simp only [returned, List.mem_map]
+    refine ⟨e.name, (hmem e.name).2 ⟨sh, hsh, s, hs, hsn.trans hn', ?_, ?_⟩, rfl⟩
+    · rw [hsn, hst]; exact hal
+    · rw [hsn, hst]; exact hh
+  unfold judgeQuery
+  have hshape : shapeOK (.mn a c) (.names (measurementNames a st c)) = true := rfl
+  simp only [hshape, hsorted, hsub1, hsub2, Bool.not_true, Bool.false_eq_true, if_false, Bool.and_self, if_true]
+
+/-! ### the whole case -/
+
+/-- the domain of the theorem: writes with sorted tags, MeasurementNames queries with no condition
+    or one in `condOK`; no deletes, snapshots, TagKeys/TagValues queries -/
+def opOK42 : Op → Bool
+  | .write _ _ tags _ => tagsSorted tags
+  | .mn _ c => (match c with | none => true | some c' => condOK c')
+  | .open_ _ | .read _ | .ls _ => true
+  | _ => false
+
+def ansOf42 (st : Option State) (op : Op) : Influx.Spec.C42.Ans :=
+  match st, op with
+  | some s, .mn a c => .names (measurementNames a s c)
+  | some s, .write sh _ _ _ => if s.any (·.id = sh) then .other "ok" else .other "bad-op"
+  | none, .open_ _ => .other "ok"
+  | _, _ => .other "-"
+
+def runT42 : Option State → List Op → List (Op × Influx.Spec.C42.Ans)
+  | _, [] => []
+  | st, op :: ops => (op, ansOf42 st op) :: runT42 (stepOp st op).1 ops
+
+theorem judgeCase_runT42 (ops : List Op) (hok : ops.all opOK42 = true) (st : State) (h : Hist)
+    (hr : Rel42 st h) (hinv : Inv42 st) :
+    (judgeCase h (runT42 (some st) ops)).all (· = .ok) = true := by
+  induction ops generalizing st h with
+  | nil => rfl
+  | cons op ops ih =>
+    simp only [List.all_cons, Bool.and_eq_true] at hok
+    obtain ⟨hop, hrest⟩ := hok
+    cases op with
+    | open_ k => simpa [runT42, ansOf42, stepOp, judgeCase] using ih hrest st h hr hinv
+    | write sh name tags pts =>
+      simp only [opOK42] at hop
+      by_cases hex : st.any (·.id = sh) = true
+      · simp only [runT42, ansOf42, stepOp, hex, if_true, judgeCase]
+        exact ih hrest _ _ (rel42_write st h hr sh name tags pts hex)
+          (inv42_write st hinv sh name tags pts (tagsAsc_of_sorted tags hop))
+      · simp only [runT42, ansOf42, stepOp, hex, Bool.false_eq_true, if_false, judgeCase]
+        exact ih hrest st h hr hinv
+    | snap sh => simp [opOK42] at hop
+    | del lo hi pred hm => simp [opOK42] at hop
+    | read sh =>
+      simp only [runT42, ansOf42, stepOp]
+      split <;> simpa [judgeCase] using ih hrest st h hr hinv
+    | ls sh =>
+      simp only [runT42, ansOf42, stepOp]
+      split <;> simpa [judgeCase] using ih hrest st h hr hinv
+    | mn au c =>
+      simp only [opOK42] at hop
+      simp only [runT42, ansOf42, stepOp, judgeCase, List.all_cons, Bool.and_eq_true]
+      refine ⟨?_, ih hrest st h hr hinv⟩
+      rw [judge_mn42 st h hr hinv au c]
+      · rfl
+      · intro c' hc'; subst hc'; exact hop
+    | tk au ids nc kc f => simp [opOK42] at hop
+    | tv au ids nc kc f => simp [opOK42] at hop
+
+theorem rel42_init (n : Nat) :
+    Rel42 ((List.range n).map fun i => ⟨i + 1, [], []⟩) ⟨[], []⟩ ∧ Inv42 ((List.range n).map fun i => ⟨i + 1, [], []⟩) := by
+  constructor
+  · intro i name tags
+    constructor
+    · rintro ⟨e, he, _⟩; cases he
+    · rintro ⟨sh, hsh, _, s, hs, _⟩
+      simp only [List.mem_map] at hsh
+      obtain ⟨j, _, rfl⟩ := hsh
+      cases hs
+  · constructor
+    · intro sh hsh m k v
+      simp only [List.mem_map] at hsh
+      obtain ⟨j, _, rfl⟩ := hsh
+      simp
+    · intro sh hsh s hs
+      simp only [List.mem_map] at hsh
+      obtain ⟨j, _, rfl⟩ := hsh
+      cases hs
 
 end Influx.Model.StoreDel
